@@ -137,6 +137,19 @@ theorem C23_alias_fuel (env : Env) (st : St) (name : String) :
   have := resolveCross_top_tx env st name _ h
   cases this
 
+/-- the fuel is immaterial: with *any* larger stack the walk along the aliases gives the
+same result as with `len(namespace) + 1` — the outcome the model computes is the outcome of
+the unbounded recursion of `_resolve_rule`, not an artefact of the bound -/
+theorem C23_alias_fuel_irrelevant (env : Env) (st : St) (name : String) (k : Nat) :
+    resolveCross env st (st.ns.length + 1 + k) [] name = resolveCross env st (st.ns.length + 1) [] name :=
+  resolveCross_stable env st _ [] name (C23_alias_fuel env st name) k
+
+/-- `A: B; B: C; C: 'x';` with a stack of 1000 frames: as with 4 -/
+example (env : Env) : resolveCross env
+    { ns := [{ name := "A", attrs := [], peg := .cross "B" false }, { name := "B", attrs := [], peg := .cross "C" false },
+             { name := "C", attrs := [], peg := mkMatch }], refs := [], top := .cross "B" false } 1000 [] "A" = .ok () := by
+  rfl
+
 /-- a text the grammar parser rejects is reported as `TextXSyntaxError` -/
 theorem C23_parse_failure : parseFailed = .error .syntax := rfl
 
